@@ -26,6 +26,7 @@ RULE = (
     "result lives in the target namespace. Non-trivial = source namespace != target namespace, or a non-default dtype."
 )
 RULE += " " + ("The grid also holds, for weighted Samples, a selection that carries its parent's evidence (which must survive the conversion) and, for every class, convert - attach the densities - convert histories on one object.")
+RULE += " " + ('Sampler results: log_evidence / log_evidence_error must have the requested width too; half of the flow cases use a proposal that was written to a file and loaded into a new instance.')
 ASSUMPTIONS = [
     "jax runs with jax_enable_x64=True (as in the repository's own tests); without it JAX cannot hold float64",
     "kernel packages are harness doubles for the sampler-level part",
